@@ -1837,4 +1837,378 @@ Proof.
   - rewrite app_nil_r. exact HGB.
 Qed.
 
+(* ---- arguments of internal functions: closures (function definitions called through pushpc / callpc) ---- *)
+
+(* the argument is a closure: jump over it; at the call site load v, push (entry pc, current scope index), callpc.
+   The callee runs in a new frame above the current offset; opret pops the frame and, when no fork created since
+   the frame was pushed is pending, gives its variables back *)
+Lemma G_arg_closure : forall q, Impl q -> forall sc cur base, frameOK sc cur base ->
+  forall ce p sn cb nvc s1 k, cur < sn -> comp q ce sn (p + 2) 0 (S sn) = Some (cb, nvc, s1) ->
+  code_at p (Ijump (p + 2 + length cb + 1) :: Iscope sn nvc 0 :: cb ++ [Iret; Iload (cur, k); Ipushpc (S p); Icallpc]) ->
+  forall cx rho v (P : list sv -> nat -> gx -> Prop) vs n o g,
+    g_sc cx = sc -> g_pc cx = p + 2 + length cb + 4 -> g_off cx = o -> ce_lbls (g_ce cx) = ce_lbls ce ->
+    (forall i, o <= i -> g_own cx i) -> (forall i, kept sc ce i -> g_keep cx i) -> (forall i, g_keep0 cx i -> g_keep cx i) ->
+    g_koff cx <= o -> envOK sc ce rho vs (g_n0 cx) o -> g_n0 cx <= n -> o <= length vs -> g_ctr cx <= ctr g ->
+    nth_error vs (base + k) = Some (SV v) ->
+    (forall a b m x m' x', P a m x -> chg (fun i => o <= i) a b -> cle m x m' x' -> P b m' x') ->
+    (forall a b m x m' x', P a m x -> keepK0 cx a b -> cle m x m' x' -> P b m' x') ->
+    P vs n g ->
+    G cx (fst (den q rho v)) (Tend cx (snd (den q rho v)) P) (N sc p (g_st cx) (g_base cx) vs n o g).
+Proof.
+  intros q IH sc cur base Hfr ce p sn cb nvc s1 k Hlt Ec Hat cx rho v P vs n o g Hsc Hpc Hoff Hlb Hown HK2 HK0 Hko HE Hn Hlen Hct Hv HP1 HP2 HP.
+  pose proof (proj1 Hfr) as Hcur.
+  replace (p + 2) with (S (S p)) in * by lia.
+  set (pr := S (S p) + length cb) in *.
+  replace (pr + 1) with (S pr) in Hat by lia.
+  uncons Hat A0. uncons Hat A1. destruct (code_at_app _ _ _ _ Hat) as [Hatc Hat2]. fold pr in Hat2.
+  uncons Hat2 A2. uncons Hat2 A3. uncons Hat2 A4. uncons Hat2 A5.
+  set (pcall := S (S (S pr))) in *.
+  assert (Epc : g_pc cx = S pcall) by (rewrite Hpc; unfold pcall; lia).
+  set (Fr := Frame sn o pcall (ctr g) sc sc).
+  set (sc' := Fr :: sc).
+  set (vs' := grow vs (o + nvc)).
+  set (g1 := {| ctr := S (ctr g); creg := (pcall, sc) |}).
+  assert (Hne : sc <> []).
+  { destruct (frameOK_top _ _ _ Hfr) as (i0 & o0 & p0 & s0 & sv0 & out0 & r0 & -> & _). discriminate. }
+  assert (St0 : steps (N sc p (g_st cx) (g_base cx) vs n o g) (N sc' (S (S p)) (SV v :: g_st cx) (g_base cx) vs' n (o + nvc) g1)).
+  { one st_jump. eapply steps_step; [eapply st_load; [exact A3|apply Hcur|exact Hv]|].
+    one st_pushpc. one st_callpc. eapply steps_step; [eapply st_scope; exact A1|].
+    simpl. rewrite (outer_of_self _ _ _ _ Hfr Hlt). apply steps_refl. }
+  assert (Hfr' : frameOK sc' sn o) by (apply (frameOK_push _ _ _ _ _ _ _ Hfr Hlt)).
+  assert (HE' : envOK sc' ce rho vs' (g_n0 cx) (o + 0)).
+  { rewrite Nat.add_0_r. eapply envOK_push; eauto. intros a Ha. apply grow_nth. lia. }
+  assert (Hl' : o + nvc <= length vs') by apply grow_len.
+  set (K' := fun i => g_keep cx i \/ o <= i < o + nvc).
+  pose proof (IH sc' sn o Hfr' ce (S (S p)) 0 (S sn) cb nvc s1 Ec Hatc rho v (g_st cx) (g_base cx) vs' n (g_n0 cx) (o + nvc) (o + nvc) g1 K' (g_keep0 cx) P
+                HE' Hn (le_n _) (le_n _) Hl') as HC. cbv zeta in HC. fold pr in HC.
+  set (c' := ctx_of sc' pr (g_st cx) (g_base cx) (o + 0) (o + nvc) (o + nvc) (o + nvc) K' (g_keep0 cx) ce (g_n0 cx) (ctr g1)) in *.
+  assert (Hoc : forall i, g_own c' i -> g_own cx i) by (simpl; intros i Hi; apply Hown; lia).
+  assert (Tc : forall fin s, Tend c' fin P s -> Tend cx fin P s).
+  { intros fin s (e & vs4 & n4 & g4 & St4 & Ch4 & Le4 & HE4 & HP4). exists e, vs4, n4, g4.
+    split; [exact St4|]. split; [exact (chg_mono _ _ _ _ Hoc Ch4)|]. split; [exact Le4|]. split; [|exact HP4].
+    rewrite Hsc. eapply encR_lbls; [symmetry; exact Hlb|]. simpl in HE4. eapply encR_push; eauto. }
+  assert (Conv : forall ws fin s, G c' ws (Tend c' fin P) s -> G cx ws (Tend cx fin P) s).
+  { induction ws as [|w ws IHws]; intros fin s HG.
+    - destruct HG as (s' & St & Ch & Le & HT). exists s'. split; [exact St|]. split; [exact (chg_mono _ _ _ _ Hoc Ch)|].
+      split; [exact Le|apply Tc; exact HT].
+    - simpl in HG. destruct HG as (fk' & vs3 & n3 & o3 & g3 & St & Ch & Le & [Ho Hfk] & R).
+      assert (Hfk' : Forall (fun f => g_ctr cx <= f_ctr f) fk').
+      { eapply Forall_impl; [|exact Hfk]. simpl. intros f Hf. lia. }
+      destruct fk' as [|f0 fk0].
+      + destruct R as [E R].
+        exists [], vs3, n3, (if (match [] ++ g_base cx with [] => true | f :: _ => f_ctr f <=? ctr g end) then o else o3), g3.
+        split. { eapply steps_trans; [exact St|]. eapply steps_step; [|apply steps_refl]. rewrite Hsc, Epc. eapply st_ret; [exact A2|exact Hne]. }
+        split; [exact (chg_mono _ _ _ _ Hoc Ch)|]. split; [exact Le|].
+        split. { split; [|exact Hfk']. rewrite Hoff. destruct (match [] ++ g_base cx with [] => true | f :: _ => f_ctr f <=? ctr g end); lia. }
+        split; [exact E|]. intros vs2 n2 g2 Kp L2. apply Tc. apply R; [exact Kp|exact L2].
+      + assert (Hnf : (f_ctr f0 <=? ctr g) = false).
+        { apply Nat.leb_gt. inversion Hfk; subst. simpl in H1. lia. }
+        exists (f0 :: fk0), vs3, n3, o3, g3.
+        split. { eapply steps_trans; [exact St|]. eapply steps_step; [|apply steps_refl]. rewrite Hsc, Epc.
+                 etransitivity; [eapply st_ret; [exact A2|exact Hne]|]. simpl. rewrite Hnf. reflexivity. }
+        split; [exact (chg_mono _ _ _ _ Hoc Ch)|]. split; [exact Le|].
+        split. { split; [|exact Hfk']. rewrite Hoff. lia. }
+        intros vs2 n2 g2 Kp L2.
+        assert (Kp' : keepS c' o3 vs3 vs2).
+        { eapply keepX_mono; [|exact Kp]. simpl. unfold K'. intros i [[Hi|Hi]|Hi]; [left; auto|right; lia|right; lia]. }
+        destruct (R vs2 n2 g2 Kp' L2) as [R1 R2]. split; [apply IHws; exact R1|].
+        intros x Hx. destruct (R2 x Hx) as (vs4 & n4 & g4 & St4 & Ch4 & Le4). exists vs4, n4, g4.
+        split; [exact St4|]. split; [exact (chg_mono _ _ _ _ Hoc Ch4)|exact Le4]. }
+  eapply G_pre; [exact St0| |unfold g1; cl|].
+  { simpl. split; [apply grow_len_le|]. intros i Hi. symmetry. apply grow_nth.
+    destruct (Nat.lt_ge_cases i (length vs)) as [Hl|Hl]; [exact Hl|]. exfalso. apply Hi, Hown. lia. }
+  apply Conv. apply HC.
+  - intros i Hi. unfold K'. right. lia.
+  - intros i Hi. unfold K'. left. apply HK2. eapply kept_push; eauto.
+  - intros i Hi. unfold K'. left. apply HK0. exact Hi.
+  - split.
+    + intros a b m x m' x' Hp C Hm. eapply HP1; [exact Hp| |exact Hm]. eapply chg_mono; [|exact C]. simpl; intros; lia.
+    + intros a b m x m' x' Hp C Hm. eapply HP2; [exact Hp|exact C|exact Hm].
+  - eapply HP1; [exact HP| |unfold g1; cl]. split; [apply grow_len_le|]. intros i Hi. symmetry. apply grow_nth. lia.
+Qed.
+
+(* an argument in any of its three forms: load v (empty body), an inlined instruction, a closure *)
+Lemma G_arg : forall q, Impl q -> forall sc cur base, frameOK sc cur base ->
+  forall ce p sn cb nvc s1 k, cur < sn -> comp q ce sn (p + 2) 0 (S sn) = Some (cb, nvc, s1) ->
+  code_at p (arg_code (cur, k) p sn cb nvc) ->
+  forall cx rho v (P : list sv -> nat -> gx -> Prop) vs n o g,
+    g_sc cx = sc -> g_pc cx = p + length (arg_code (cur, k) p sn cb nvc) -> g_off cx = o -> ce_lbls (g_ce cx) = ce_lbls ce ->
+    (forall i, o <= i -> g_own cx i) -> (forall i, kept sc ce i -> g_keep cx i) -> (forall i, g_keep0 cx i -> g_keep cx i) ->
+    g_koff cx <= o -> envOK sc ce rho vs (g_n0 cx) o -> g_n0 cx <= n -> o <= length vs -> g_ctr cx <= ctr g ->
+    nth_error vs (base + k) = Some (SV v) ->
+    (forall a b m x m' x', P a m x -> chg (fun i => o <= i) a b -> cle m x m' x' -> P b m' x') ->
+    (forall a b m x m' x', P a m x -> keepK0 cx a b -> cle m x m' x' -> P b m' x') ->
+    P vs n g ->
+    G cx (fst (den q rho v)) (Tend cx (snd (den q rho v)) P) (N sc p (g_st cx) (g_base cx) vs n o g).
+Proof.
+  intros q IH sc cur base Hfr ce p sn cb nvc s1 k Hlt Ec Hat cx rho v P vs n o g Hsc Hpc Hoff Hlb Hown HK2 HK0 Hko HE Hn Hlen Hct Hv HP1 HP2 HP.
+  pose proof (proj1 Hfr) as Hcur.
+  destruct cb as [|x [|x2 r]].
+  - (* empty body: load v *)
+    destruct (comp_nil _ _ _ _ _ _ _ _ Ec) as (E1 & -> & ->). rewrite (emptycode_den nt _ E1). cbn [fst snd].
+    simpl in Hat, Hpc. uncons Hat A0.
+    eapply G_single with (o3 := o); [rewrite Hsc, Hpc; replace (p + 1) with (S p) by lia;
+                       eapply steps_step; [eapply st_load; [exact A0|apply Hcur|exact Hv]|apply steps_refl]
+                     |apply chg_refl|cl|rewrite Hoff; lia|].
+    intros vs2 n2 g2 Kp L2. eapply HP2; eauto.
+  - destruct (Nat.eqb_spec nvc 0) as [->|Hnz].
+    + (* one instruction that owns no variable *)
+      destruct (comp_single nt _ _ _ _ _ _ _ _ Ec) as [Hs Hd]. rewrite Hd.
+      unfold arg_code in Hat, Hpc. simpl Nat.eqb in Hat, Hpc. cbv iota in Hat, Hpc.
+      destruct x; try discriminate Hs; simpl in Hat, Hpc.
+      * (* const *) uncons Hat A0. cbn [den1 fst snd].
+        eapply G_single with (o3 := o); [rewrite Hsc, Hpc; replace (p + 1) with (S p) by lia; one st_push; apply steps_refl
+                         |apply chg_refl|cl|rewrite Hoff; lia|].
+        intros vs2 n2 g2 Kp L2. eapply HP2; eauto.
+      * (* backtrack *) uncons Hat A0. uncons Hat A1. cbn [den1 fst snd].
+        eapply G_end; [eapply steps_step; [eapply st_load; [exact A0|apply Hcur|exact Hv]|]; rewrite <- Hsc; one st_backtrack; apply steps_refl
+                      |apply chg_refl|cl|reflexivity|exact HP].
+      * (* index *) uncons Hat A0. uncons Hat A1. cbn [den1].
+        eapply G_pre; [eapply steps_step; [eapply st_load; [exact A0|apply Hcur|exact Hv]|apply steps_refl]|apply chg_refl|cl|].
+        rewrite <- Hsc. apply G_index with (o := o); auto; try lia.
+      * (* call *) destruct f; try discriminate Hs. uncons Hat A0. uncons Hat A1. cbn [den1].
+        destruct (n_fn0 nt f v) as [w|e] eqn:E; cbn [of_sum fst snd].
+        -- eapply G_single with (o3 := o); [rewrite Hpc; replace (p + 2) with (S (S p)) by lia;
+                            eapply steps_step; [eapply st_load; [exact A0|apply Hcur|exact Hv]|]; rewrite Hsc; one st_call0_ok; apply steps_refl
+                           |apply chg_refl|cl|rewrite Hoff; lia|].
+           intros vs2 n2 g2 Kp L2. eapply HP2; eauto.
+        -- eapply G_end; [eapply steps_step; [eapply st_load; [exact A0|apply Hcur|exact Hv]|]; one st_call0_err; apply steps_refl
+                         |apply chg_refl|cl|reflexivity|exact HP].
+      * (* iter *) uncons Hat A0. uncons Hat A1. cbn [den1].
+        eapply G_pre; [eapply steps_step; [eapply st_load; [exact A0|apply Hcur|exact Hv]|apply steps_refl]|apply chg_refl|cl|].
+        rewrite <- Hsc. apply G_iter with (o := o); auto; try lia.
+    + (* a closure around one instruction *)
+      assert (En : Nat.eqb nvc 0 = false) by (apply Nat.eqb_neq; exact Hnz).
+      unfold arg_code in Hat, Hpc. rewrite En in Hat, Hpc.
+      apply (G_arg_closure q IH sc cur base Hfr ce p sn [x] nvc s1 k Hlt Ec Hat cx rho v P vs n o g); auto.
+      rewrite Hpc. simpl. lia.
+  - (* a closure *)
+    unfold arg_code in Hat, Hpc.
+    apply (G_arg_closure q IH sc cur base Hfr ce p sn (x :: x2 :: r) nvc s1 k Hlt Ec Hat cx rho v P vs n o g); auto.
+    rewrite Hpc. simpl. rewrite app_length. simpl. lia.
+Qed.
+
+Lemma impl_binop : forall op a b, Impl a -> Impl b -> Impl (QBinop op a b).
+Proof.
+  intros op a b IHa IHb. impl_intro.
+  destruct (comp_binop_inv _ _ _ _ _ _ _ _ _ _ _ Hc) as (Hlt & cb & nb & s1 & ca & na & Eb & Ea & -> & ->). clear Hc.
+  set (cb' := arg_code (cur, nv) (S pc) sn cb nb) in *.
+  set (ca' := arg_code (cur, nv) (S pc + length cb') s1 ca na) in *.
+  destruct (comp_mono _ _ _ _ _ _ _ _ _ Eb) as [_ Ms1].
+  std_facts. pose proof (conj S1 S2) as HS. destruct (stable_sub _ _ _ _ _ _ _ _ _ _ _ _ _ _ HS) as [S1' S2'].
+  assert (HJ0 : Jstd sc ce rho n0 (base + nv) o P vs n g) by (split; auto).
+  uncons Hat A0. destruct (code_at_app _ _ _ _ Hat) as [Hatb Hat2].
+  destruct (code_at_app _ _ _ _ Hat2) as [Hata Hat3]. uncons Hat3 A1. uncons Hat3 A2.
+  set (pA := S pc + length cb') in *. set (pL := pA + length ca') in *.
+  assert (Epc : pc + length (Istore (cur, nv) :: cb' ++ ca' ++ [Iload (cur, nv); Icall (NF2 op)]) = S (S pL)).
+  { simpl. rewrite !app_length. simpl. unfold pL, pA. lia. }
+  subst c. rewrite Epc in *.
+  set (c := ctx_of sc (S (S pL)) st fk (base + nv) (base + S nv) o ko K K0 ce n0 (ctr g)).
+  destruct (update_some vs (base + nv) (SV v)) as [vs1 U]; [lia|].
+  destruct (update_spec _ _ _ _ U) as (UL & UN & UO).
+  assert (HJ1 : Jstd sc ce rho n0 (base + nv) o P vs1 n g) by (eapply Jstd_update; [exact S1'|exact HJ0|exact U|lia|lia]).
+  eapply G_pre; [eapply steps_step; [eapply st_store; [exact A0|apply Hcur|exact U]|apply steps_refl]
+                |eapply chg_update; [exact U|simpl; lia]|cl|].
+  set (Jg := fun p : list sv => nth_error p (base + nv) = Some (SV v)).
+  assert (HJgK : forall p q, Jg p -> keepX K p q -> Jg q).
+  { intros p q Hg C. unfold Jg in *. rewrite <- Hg. symmetry. apply C. apply HK1. lia. }
+  cbn [Den.den].
+  set (f := fun r => bind (den a rho v) (fun l => of_sum (n_fn2 nt op v l r))).
+  pose proof HJ1 as (E1 & Hn1 & Hl1 & Hp1).
+  refine (bind_std f Jg sc pA st (base + S nv) (base + S nv) (S (S pL)) st fk (base + nv) (base + S nv) o ko K K0 ce n0 (ctr g) rho (base + nv) P
+            (fun i => base + S nv <= i < base + S nv) ce
+            HS ltac:(lia) (le_n _) Hko Hoo (le_n _) ltac:(lia) Hkl HK1 HK2 HK0 _ eq_refl _ HJgK _ (den b rho v) (N sc (S pc) st fk vs1 n o g) _ _ (le_n _)).
+  - intros i Hi. lia.
+  - intros p q Hg C. unfold Jg in *. rewrite <- Hg. symmetry. apply C. lia.
+  - (* for every output r of the right operand: the left operand, then the call *)
+    intros r fk' vs' n' o' x Hj Ho' Ht' Hfk Hwk Hin. pose proof Hj as ((E' & Hn' & Hl' & Hp') & Hg').
+    set (J := fun p m y => Jstd sc ce rho n0 (base + nv) o P p m y /\ Jg p) in *.
+    set (Jf := fun p m (y : gx) => P p m y /\ True) in *.
+    set (P' := wk fk' J Jf).
+    set (K0' := match fk' with [] => K0 | _ :: _ => K end).
+    assert (HK0' : forall i, K0' i -> K i) by (intros i Hi; exact (wk_K _ _ _ _ HK0 Hi)).
+    assert (HS' : stable (ctx_of sc (S (S pL)) st (fk' ++ fk) (base + S nv) (base + S nv) o' ko K K0' ce n0 (ctr x)) P').
+    { split.
+      - apply wk_chg.
+        + intros p q m y m' y' [Hq Hg] C Hm. split.
+          * eapply (Jstd_chg' _ _ _ _ _ _ (base + nv) (base + S nv)); [exact S1'| |exact Hq|exact C|exact Hm]. simpl; intros; lia.
+          * unfold Jg in *. rewrite <- Hg. symmetry. apply C. simpl. lia.
+        + intros p q m y m' y' [Hq _] C Hm. split; auto. eapply (S1' _ p q m y m' y'); [|exact Hq|exact C|exact Hm]. simpl; intros; lia.
+      - exact Hwk. }
+    assert (HJ' : Jstd sc ce rho n0 (base + nv) o' P' vs' n' x /\ Jg vs').
+    { split; [|exact Hg']. split; [exact E'|]. split; [exact Hn'|]. split; [lia|]. apply Hin. exact Hj. }
+    pose proof (bind_std (fun l => of_sum (n_fn2 nt op v l r)) Jg sc pL (SV r :: st) (base + S nv) (base + S nv) (S (S pL)) st (fk' ++ fk)
+                  (base + S nv) (base + S nv) o' ko K K0' ce n0 (ctr x) rho (base + nv) P' (fun _ => False) ce
+                  HS' (le_n _) (le_n _) Hko ltac:(lia) ltac:(lia) (le_n _) Hkl) as HI. cbv zeta in HI.
+    refine (HI _ HK2 HK0' _ eq_refl _ HJgK _ (den a rho v) (N sc pA (SV r :: st) (fk' ++ fk) vs' n' o' x) _ HJ' (le_n _)).
+    + intros i Hi. lia.
+    + intros i [].
+    + intros p q Hg C. unfold Jg in *. rewrite <- Hg. symmetry. apply C. lia.
+    + intros l fk'' vs'' n'' o'' x'' Hj'' Ho'' Ht'' Hfk'' Hwk2 Hin2. pose proof Hj'' as (_ & Hg'').
+      destruct (n_fn2 nt op v l r) as [w|e] eqn:E; cbn [of_sum fst snd].
+      * eapply G_single with (o3 := o''); [simpl g_pc; simpl g_st; simpl g_base; simpl g_sc;
+                            eapply steps_step; [eapply st_load; [exact A1|apply Hcur|exact Hg'']|]; one st_call2_ok; apply steps_refl
+                         |apply chg_refl|cl|simpl; lia|].
+        intros vs2 n2 g2 Kp L2. eapply Hwk2; [apply Hin2; exact Hj''|exact Kp|exact L2].
+      * eapply G_end; [eapply steps_step; [eapply st_load; [exact A1|apply Hcur|exact Hg'']|]; one st_call2_err; apply steps_refl
+                      |apply chg_refl|cl|reflexivity|apply Hin2; exact Hj''].
+    + (* the left operand *)
+      apply (G_arg a IHa sc cur base Hfr ce pA s1 ca na sn' nv ltac:(lia) Ea Hata
+               (ctx_of sc pL (SV r :: st) (fk' ++ fk) (base + S nv) (base + S nv) o' o'
+                  (fun i => base + S nv <= i < base + S nv \/ kept sc ce i) (fun _ => False) ce n0 (ctr x))
+               rho v (fun _ _ _ => True) vs' n' o' x); simpl; auto; try lia.
+      eapply envOK_lim; [exact E'|lia].
+  - (* the right operand *)
+    apply (G_arg b IHb sc cur base Hfr ce (S pc) sn cb nb s1 nv Hlt Eb Hatb
+             (ctx_of sc pA st fk (base + S nv) (base + S nv) o o
+                (fun i => base + S nv <= i < base + S nv \/ kept sc ce i) (fun _ => False) ce n0 (ctr g))
+             rho v (fun _ _ _ => True) vs1 n o g); simpl; auto; try lia.
+    eapply envOK_lim; [exact E1|lia].
+  - split; [exact HJ1|exact UN].
+Qed.
+
+Theorem impl_all : forall q, Impl q.
+Proof.
+  induction q as [ | c | a b IHa IHb | a b IHa IHb | | t IHt | t k IHt | c a b IHc IHa IHb | a b IHa IHb
+                 | a h IHa IHh | q IHq | s x i u IHs IHi IHu | s x i u e IHs IHi IHu IHe | l b IHb | l
+                 | s x b IHs IHb | x | f | o a b IHa IHb ] using query_ind'.
+  - apply impl_id. - apply impl_const. - apply impl_pipe; auto. - apply impl_comma; auto. - apply impl_empty.
+  - apply impl_iter; auto. - apply impl_index; auto. - apply impl_if; auto. - apply impl_alt; auto.
+  - apply impl_try; auto. - apply impl_array; auto. - apply impl_reduce; auto. - apply impl_foreach; auto.
+  - apply impl_label; auto. - apply impl_break. - apply impl_bind; auto. - apply impl_var. - apply impl_call0.
+  - apply impl_binop; auto.
+Qed.
+
 End C.
+
+(* ---- whole programs ---- *)
+Section Top.
+Variable nt : natives.
+
+Lemma run_steps : forall code s s', steps nt code s s' -> forall f R, run nt code f s' = R -> exists f', run nt code f' s = R.
+Proof.
+  induction 1; intros f R HR; eauto.
+  destruct (IHsteps f R HR) as (f' & Hf'). exists (S f'). simpl. rewrite H. exact Hf'.
+Qed.
+
+(* how a whole run ends, given the ending of the denotation *)
+Definition run_is (r : result) (o : list jv * ending) : Prop :=
+  match snd r with
+  | None => o = (fst r, End)
+  | Some (XErr e) => o = (fst r, Error (VE (err_of e)))
+  | Some (XBrk _) => False              (* a closed program cannot end with a break *)
+  end.
+
+Section RunG.
+Variables (code : list instr) (rpc : nat) (c : gctx) (P : list sv -> nat -> gx -> Prop) (fin : option exn)
+          (id off stamp : nat) (outer : list frame).
+Hypothesis Hrpc : rpc = length code - 1.
+Hypothesis Hret : nth_error code rpc = Some Iret.
+Hypothesis Hsc : g_sc c = [Frame id off rpc stamp [] outer].
+Hypothesis Hpc : g_pc c = rpc.
+Hypothesis Hst : g_st c = [].
+Hypothesis Hbase : g_base c = [].
+Hypothesis Hce : g_ce c = ce_empty.
+
+Lemma run_tend : forall s, Tend nt code c fin P s -> exists f, run_is ([], fin) (run nt code f s).
+Proof.
+  intros s (e & vs & n & g & St & _ & _ & HE & _). rewrite Hbase in St. rewrite Hce in HE.
+  assert (HR : exists f, run_is ([], fin) (run nt code f (B e [] vs n g))).
+  { exists 1. unfold run_is. simpl. destruct fin as [[e0|l]|]; simpl in HE.
+    - subst e. reflexivity.
+    - destruct HE as (y & k & i & Hk & _). simpl in Hk. discriminate.
+    - subst e. reflexivity. }
+  destruct HR as (f & Hf).
+  destruct (run_steps _ _ _ St f _ eq_refl) as (f' & Hf'). exists f'. rewrite Hf'. exact Hf.
+Qed.
+
+Lemma run_G : forall ws s, Gen.G2 nt code c ws (Tend nt code c fin P) (Tend nt code c fin P) s ->
+  exists f, run_is (ws, fin) (run nt code f s).
+Proof.
+  induction ws as [|a ws IHws]; intros s HG.
+  - simpl in HG. destruct HG as (s' & St & _ & _ & HT).
+    destruct (run_tend _ HT) as (f & Hf).
+    destruct (run_steps _ _ _ St f _ eq_refl) as (f' & Hf'). exists f'. rewrite Hf'. exact Hf.
+  - simpl in HG. destruct HG as (fk' & vs3 & n3 & o3 & g3 & St & _ & _ & _ & R).
+    rewrite Hsc, Hpc, Hst, Hbase in St.
+    set (o4 := if (match fk' ++ [] with [] => true | f :: _ => f_ctr f <=? stamp end) then off else o3).
+    set (g4 := {| ctr := ctr g3; creg := (length code - 1, []) |}).
+    (* ret emits a; the next call of Next re-executes ret in backtrack mode *)
+    assert (E1 : step nt code (N [Frame id off rpc stamp [] outer] rpc (SV a :: []) (fk' ++ []) vs3 n3 o3 g3) =
+                 Emit a (Run rpc true None (mk [] [] (fk' ++ []) vs3 n3 o4 g4))).
+    { apply st_ret_main. exact Hret. }
+    assert (E2 : step nt code (Run rpc true None (mk [] [] (fk' ++ []) vs3 n3 o4 g4)) = Next (B None (fk' ++ []) vs3 n3 g4)).
+    { unfold mk. cbn [step]. rewrite Hret. reflexivity. }
+    assert (HR0 : exists f, run_is (ws, fin) (run nt code f (B None (fk' ++ []) vs3 n3 g4))).
+    { destruct fk' as [|f0 fk0].
+      - destruct R as [E R]. subst ws. rewrite Hbase in R. apply run_tend. apply R; [apply keepK0_refl|unfold cle; simpl; lia].
+      - rewrite Hbase in R. destruct (R vs3 n3 g4 (keepS_refl _ _ _) ltac:(unfold cle; simpl; lia)) as [R1 _].
+        apply IHws. exact R1. }
+    destruct HR0 as (f & Hf).
+    assert (HR : exists f', run_is (a :: ws, fin) (run nt code f' (N [Frame id off rpc stamp [] outer] rpc (SV a :: []) (fk' ++ []) vs3 n3 o3 g3))).
+    { exists (S (S f)).
+      change (run nt code (S (S f)) (N [Frame id off rpc stamp [] outer] rpc [SV a] (fk' ++ []) vs3 n3 o3 g3)) with
+        (match step nt code (N [Frame id off rpc stamp [] outer] rpc [SV a] (fk' ++ []) vs3 n3 o3 g3) with
+         | Next s' => run nt code (S f) s'
+         | Emit v s' => let '(o, e) := run nt code (S f) s' in (v :: o, e)
+         | Halt None => ([], End) | Halt (Some e) => ([], Error e) | Stuck => ([], IsStuck) end).
+      rewrite E1.
+      change (run nt code (S f) (Run rpc true None (mk [] [] (fk' ++ []) vs3 n3 o4 g4))) with
+        (match step nt code (Run rpc true None (mk [] [] (fk' ++ []) vs3 n3 o4 g4)) with
+         | Next s' => run nt code f s'
+         | Emit v s' => let '(o, e) := run nt code f s' in (v :: o, e)
+         | Halt None => ([], End) | Halt (Some e) => ([], Error e) | Stuck => ([], IsStuck) end).
+      rewrite E2.
+      unfold run_is in *. cbn [fst snd] in *. destruct (run nt code f (B None (fk' ++ []) vs3 n3 g4)) as [o e'].
+      destruct fin as [[e0|l]|]; auto; inversion Hf; subst; reflexivity. }
+    destruct HR as (f' & Hf').
+    destruct (run_steps _ _ _ St f' _ eq_refl) as (f'' & Hf''). exists f''. rewrite Hf''. exact Hf'.
+Qed.
+End RunG.
+
+Theorem compile_raw_correct : forall q code, compile_raw q = Some code ->
+  forall v, exists fuel, run_is (den nt q [] v) (run nt code fuel (init code v)).
+Proof.
+  intros q code Hc v. unfold compile_raw in Hc.
+  destruct (comp q ce_empty mainscope 1 0 2) as [[[c nv] sn']|] eqn:Ec; [|discriminate]. inversion Hc; subst code. clear Hc.
+  set (code := Iscope mainscope nv 0 :: c ++ [Iret]).
+  set (rpc := length code - 1).
+  assert (Hlen : length code = S (S (length c))) by (unfold code; simpl; rewrite app_length; simpl; lia).
+  assert (Hrpc : rpc = 1 + length c) by (unfold rpc; lia).
+  assert (Hret : nth_error code rpc = Some Iret).
+  { rewrite Hrpc. unfold code. simpl. rewrite nth_error_app2 by lia. replace (length c - length c) with 0 by lia. reflexivity. }
+  assert (Hat : code_at code 1 c).
+  { intros i x Hi. unfold code. simpl. rewrite nth_error_app1; auto. apply nth_error_Some. congruence. }
+  set (vs0 := grow [] (0 + nv)).
+  set (sc0 := [Frame mainscope 0 rpc 0 [] []]).
+  set (g1 := {| ctr := 1; creg := (rpc, @nil frame) |}).
+  assert (E0 : step nt code (init code v) = Next (N sc0 1 [SV v] [] vs0 0 (0 + nv) g1)).
+  { unfold init. fold rpc. change (Run 0 false None {| stk := [SV v]; scopes := []; forks := []; vars := []; lbl := 0; offset := 0;
+                                     gxs := {| ctr := 0; creg := (rpc, []) |} |})
+      with (N [] 0 [SV v] [] [] 0 0 {| ctr := 0; creg := (rpc, @nil frame) |}).
+    rewrite (st_scope nt code [] 0 mainscope nv 0); [reflexivity|]. reflexivity. }
+  assert (Hfr : frameOK sc0 mainscope 0).
+  { split.
+    - intros k. reflexivity.
+    - intros y a Hy. unfold sc0, mainscope in *. simpl in Hy. destruct (fst y) as [|[|?]]; [discriminate|lia|discriminate]. }
+  pose proof (impl_all nt code q sc0 mainscope 0 Hfr ce_empty 1 0 2 c nv sn' Ec Hat [] v [] [] vs0 0 0 (0 + nv) (0 + nv) g1
+                (fun _ => True) (fun _ => True) (fun _ _ _ => True)) as HI.
+  cbv zeta in HI.
+  set (c0 := ctx_of sc0 (1 + length c) [] [] (0 + 0) (0 + nv) (0 + nv) (0 + nv) (fun _ => True) (fun _ => True) ce_empty 0 (ctr g1)) in HI.
+  assert (HG : Gen.G2 nt code c0 (fst (den nt q [] v)) (Tend nt code c0 (snd (den nt q [] v)) (fun _ _ _ => True))
+                 (Tend nt code c0 (snd (den nt q [] v)) (fun _ _ _ => True)) (N sc0 1 [SV v] [] vs0 0 (0 + nv) g1)).
+  { apply HI; auto.
+    - split; intros a k Hk; simpl in Hk; discriminate.
+    - unfold vs0. apply grow_len.
+    - split; auto. }
+  destruct (run_G code rpc c0 (fun _ _ _ => True) (snd (den nt q [] v)) mainscope 0 0 [] eq_refl Hret eq_refl
+              ltac:(simpl; lia) eq_refl eq_refl eq_refl _ _ HG) as (f & Hf).
+  exists (S f).
+  change (run nt code (S f) (init code v)) with
+    (match step nt code (init code v) with
+     | Next s' => run nt code f s'
+     | Emit v s' => let '(o, e) := run nt code f s' in (v :: o, e)
+     | Halt None => ([], End) | Halt (Some e) => ([], Error e) | Stuck => ([], IsStuck) end).
+  rewrite E0. destruct (den nt q [] v) as [ws fin]. exact Hf.
+Qed.
+End Top.
